@@ -5,6 +5,7 @@ import (
 	"math/rand"
 	"strings"
 	"sync"
+	"time"
 
 	"verif/internal/fakeredis"
 	"verif/internal/gen"
@@ -12,13 +13,14 @@ import (
 )
 
 type Options struct {
-	Prop    string // C02, C07 or C09: which clauses are reported
-	Bias    string // "barrier" or "idle"
-	NBase   int
-	Depth   int // maximum number of successive crashes
-	DeepPct int // percentage of resumed runs that are crashed again
-	Workers int
-	OnlyTxn bool // C09: transactional mode only
+	Prop       string // C02, C07 or C09: which clauses are reported
+	Bias       string // "barrier" or "idle"
+	NBase      int
+	Depth      int // maximum number of successive crashes
+	DeepPct    int // percentage of resumed runs that are crashed again
+	Workers    int
+	OnlyTxn    bool // C09: transactional mode only
+	CleanStops int  // orderly-stop schedules per case
 }
 
 func maxCp(apps []fakeredis.App, runID string) int64 {
@@ -155,11 +157,67 @@ func Explore(run *harness.Run, o Options) {
 			wg.Wait()
 		}
 		explore(r, base, 0, "")
+		// orderly stops (context cancellation) while the source is silent at a PRNG-chosen command
+		// boundary — inside transactions, right after MULTI / SELECT, mid-batch — then a fresh instance
+		for k := 0; k < o.CleanStops; k++ {
+			cleanStop(run, key, e, rand.New(rand.NewSource(r.Int63())), report)
+		}
 		if o.Prop == "C07" || o.Prop == "C02" {
 			ResyncScenario(run, key, r, c, o.Prop)
 			RerunScenario(run, key, r, c, o.Prop)
 		}
 	})
+}
+
+// cleanStop: one orderly-stop schedule on a fresh target, judged like a crash + restart.
+func cleanStop(run *harness.Run, key string, e *Env, r *rand.Rand, report func(key string, e *Env, l *RunLog, crash string, fs []Finding)) {
+	cmds := e.Stream.Cmds
+	if len(cmds) < 3 {
+		return
+	}
+	// prefer boundaries inside source transactions (two draws out of three)
+	idx := r.Intn(len(cmds) - 1)
+	for try := 0; try < 8 && r.Intn(3) != 0 && cmds[idx].Group < 0; try++ {
+		idx = r.Intn(len(cmds) - 1)
+	}
+	stopAt := e.C.Base + cmds[idx].End
+	linger := []time.Duration{0, e.C.BatchTicker / 2, 2 * e.C.BatchTicker, e.C.KeepAlive + 5*time.Millisecond}[r.Intn(4)]
+	srv := newServer()
+	defer srv.Close()
+	l1, why := e.runOnStop(r, srv, nil, 0, true, stopAt, linger)
+	if l1 == nil {
+		run.Inconclusive("%s: orderly stop at %d: %s", key, stopAt, why)
+		return
+	}
+	crash := fmt.Sprintf("orderly stop after the source delivered up to %d (%s, group %d) and stayed silent for %v", stopAt, cmds[idx].Kind, cmds[idx].Group, linger)
+	run.Eval(1)
+	run.Count("orderly_stops", 1)
+	if cmds[idx].Group >= 0 && cmds[idx].Kind != gen.KExec {
+		run.Count("orderly_stops_inside_a_source_transaction", 1)
+	}
+	fs := e.CheckAtomicity(nil, l1)
+	f1, _, _ := e.CheckCpSequence(-1, l1)
+	fs = append(fs, f1...)
+	report(key, e, l1, crash+" [stopped run]", fs)
+	state := srv.Applied()
+	prior := IDsOf(state)
+	nl, why := e.runOn(r, srv, state, 1, false)
+	if nl == nil {
+		run.Inconclusive("%s: resume after %s: %s", key, crash, why)
+		return
+	}
+	if nl.SPErr != nil {
+		run.Inconclusive("%s: resume after %s: start point error %v", key, crash, nl.SPErr)
+		return
+	}
+	run.Count("restarts", 1)
+	fs = e.CheckResume(prior, nl)
+	f2, _, ncp := e.CheckCpSequence(maxCp(state, e.RunID), nl)
+	run.Count("resume_position_writes_observed", int64(ncp))
+	fs = append(fs, f2...)
+	fs = append(fs, e.CheckAtomicity(prior, nl)...)
+	report(key, e, nl, crash, fs)
+	run.Distinct(fmt.Sprintf("%s|orderly-stop|at=%s|in-group=%v|resume-at=%s", e.C.Mode(), cmds[idx].Kind, cmds[idx].Group >= 0, e.barrierAt(nl.SP.Offset)))
 }
 
 func overlap(prior []string, l *RunLog) bool {
